@@ -403,6 +403,11 @@ func (env *SpecEnv) tryLookup(name string) (*Val, bool) {
 				}
 			}
 		}
+		// a declared ghost variable is never shadowed by a program variable that happens to carry the same
+		// name (the code under contract may grow one at any time; the contract keeps meaning the ghost)
+		if gv, ok := env.fr.vc.P.CS.GhostVars[name]; ok {
+			return &Val{T: env.curHeap().Get(env.fr.vc.ghostVarHeap(gv)), Typ: env.fr.vc.ghostVarType(gv)}, true
+		}
 		if v := env.fr.lookupLocal(name, env.block, env.idx, env.curHeap(), env.inOld || env.entryParams); v != nil {
 			return v, true
 		}
@@ -1151,7 +1156,7 @@ func (fr *Frame) lookupLocal(name string, b *ssa.BasicBlock, idx int, h *Heap, o
 				return nil
 			}
 			if obj := x.Object(); obj != nil && obj.Name() == name {
-				if _, isVar := obj.(*types.Var); isVar {
+				if ov, isVar := obj.(*types.Var); isVar && !ov.IsField() {
 					return fr.val(x.X)
 				}
 			}
